@@ -210,6 +210,8 @@ structure Env (V S : Type) where
   add : V → V → V
   sub : V → V → V
   smul : S → V → V
+  /-- `v / c` -/
+  sdiv : V → S → V
   /-- `real(sum(conj(a) * b))` -/
   reInner : V → V → S
   /-- `snp.linalg.norm` -/
@@ -261,7 +263,7 @@ def PolState.init : PolState V S := ⟨none, none, none, 0, none, none, 0⟩
 def rlsTrial (env : Env V S) (x : V) (Tk : S) (Zrb : V) (L : S) : S × S × V × V :=
   let t := (1 + sqrt (1 + four * L * Tk)) / (two * L)
   let T := Tk + t
-  let y := env.smul (1 / T) (env.add (env.smul Tk x) (env.smul t Zrb))
+  let y := env.sdiv (env.add (env.smul Tk x) (env.smul t Zrb)) T
   let z := xstep env y L
   (t, T, y, z)
 
